@@ -78,8 +78,14 @@ StepOf(r, g0, d0) ==
 Healthy(o, a) == \E i \in DOMAIN o.hosts : /\ o.hosts[i] = a /\ a \in DOMAIN o.byAddr /\ o.byAddr[a] = i
                                             /\ \E e \in o.polE : e.id = i
 
-SameD(x, y) == /\ x.hosts = y.hosts /\ x.byAddr = y.byAddr /\ x.pool = y.pool /\ x.pol = y.pol /\ x.down = y.down
-               /\ Range(x.hlist) = Range(y.hlist)
+\* The model keeps the policy's hosts by id.  The driver's policies keep them by address, so
+\* at an address that one host id took over from another (gg.moved) the policy entry depends
+\* on the order of internal calls; where the property demands the entry its absence is a
+\* violation (policy-missing-host-after-id-replacement), elsewhere it is not compared.
+SameD(x, y, gg) ==
+  LET mv == {i \in DOMAIN x.hosts : x.hosts[i] \in gg.moved} IN
+  /\ x.hosts = y.hosts /\ x.byAddr = y.byAddr /\ x.pool = y.pool /\ x.pol \ mv = y.pol \ mv /\ x.down = y.down
+  /\ Range(x.hlist) = Range(y.hlist)
 
 Init == /\ l = 1 /\ g = GhostInit(<<>>, {}) /\ d = EmptyD /\ dead = FALSE
         /\ truth = <<>> /\ nref = 0
@@ -101,7 +107,7 @@ Next ==
         /\ rep' = IF skip THEN [kind |-> "skipped", sc |-> r.sc, k |-> r.k]
                   ELSE IF V # {} THEN [kind |-> "viol", sc |-> r.sc, k |-> r.k, kinds |-> V, line |-> l]
                   \* (no unique prediction while a host id is reported twice)
-                  ELSE IF ~g1.dup /\ (~SameD(DOf(o), st[2]) \/ r.refreshes # st[3])
+                  ELSE IF ~g1.dup /\ (~SameD(DOf(o), st[2], g1) \/ r.refreshes # st[3])
                     THEN [kind |-> "drift", sc |-> r.sc, k |-> r.k, line |-> l, op |-> r.op,
                           expected |-> [hosts |-> st[2].hosts, byaddr |-> st[2].byAddr, pool |-> st[2].pool,
                                         pol |-> st[2].pol, down |-> st[2].down, refreshes |-> st[3]]]
